@@ -297,7 +297,7 @@ class Domain:
             bound[va[0]] = TupleV(tuple(extra))
         kw = [p.name for p in finfo.params if p.kind == "kwarg"]
         if kw:
-            bound[kw[0]] = TupleV(tuple(sorted((k, v) for k, v in kwargs.items() if _hashable(v) and finfo.param(k) is None), key=lambda kv: kv[0]))
+            bound[kw[0]] = TupleV(tuple(sorted(((k, v) for k, v in kwargs.items() if _hashable(v) and finfo.param(k) is None and not k.startswith("**")), key=lambda kv: kv[0])))
         for k, v in kwargs.items():
             if not k.startswith("**"):
                 bound[k] = v
@@ -552,6 +552,10 @@ class Domain:
             return list(value.items), False
         if isinstance(value, Const) and isinstance(value.v, (tuple, list)) and len(value.v) == n:
             return [Const(x) for x in value.v], False
+        return [TOP] * n, self.unpack_may_raise
+
+    def unpack_starred(self, value, star_index, n, node, state):
+        """`a, *b, c = value`: -> (list of n values (the starred one a sequence), may_raise)."""
         return [TOP] * n, self.unpack_may_raise
 
     # ---- misc -------------------------------------------------------------
@@ -1126,8 +1130,7 @@ class Interp:
             star = [i for i, e in enumerate(tgt.elts) if isinstance(e, ast.Starred)]
             excs = []
             if star:
-                vals = [TOP] * len(tgt.elts)
-                may = d.unpack_may_raise
+                vals, may = d.unpack_starred(value, star[0], len(tgt.elts), tgt, state)
             else:
                 vals, may = d.unpack(value, len(tgt.elts), tgt, state)
             if may:
